@@ -57,6 +57,12 @@ CHECKS = {
  "C16": ("exploration", "runtime monitoring: in-process oracle over generated inputs + hook event stream of real builds",
   "The tree's own naming function is executed in-process on 10^5 (quick) to 4*10^6 (thorough) generated (salt, seed, name) triples and every name garble produces during real garble-cold builds (std + program, ~9*10^4 applications per build) is taken from a hook stream; each output is checked for well-formedness, export preservation, purity and per-salt distinctness.",
   "Inputs are PRNG-generated, not exhaustive; clash classification trusts an independent sha256 recomputation."),
+ "C17": ("exploration", "runtime monitoring of concurrent real processes: sha256 against isolated builds, hook event histories (one CLOCK_MONOTONIC) checked offline - linker-digest invariant, writer agreement per key, porcupine linearizability of the package cache - with failpoint sleeps widening windows",
+  "Scenarios of 2-8 garble builds started together over one GOCACHE/GARBLE_CACHE/TMPDIR (identical, different flags, different projects; -p 1/2/16; warm, linker deleted, stale stamp, garble-cold, fully cold) must each exit 0 with the sha256 of the same command run alone; every linker digest executed must be that of a completely built linker; all writers of a cache key must agree; the recorded get/put history must be linearizable per key (porcupine); no garble temp entries may remain.",
+  "Interleavings are sampled (sleep failpoints, repetitions), not enumerated; the evidence lists the overlap classes actually observed; porcupine timeout => inconclusive."),
+ "C18": ("fault_enumeration", "runtime monitoring with crash injection: SIGKILL of the build's process group at enumerated hook failpoints and PRNG-chosen instants, then rerun and compare with an uninterrupted build",
+  "A build in its own process group is killed at each named failpoint (after listing, around every step of the linker patch/build/stamp protocol, before cache writes, before executing compiler/linker for chosen packages, before clean-up and trim) and at PRNG-chosen instants, from warm and from linker-less cold cache copies; a sample of reruns is killed again; the final rerun must exit 0 with the uninterrupted build's sha256. The evidence lists the phases the kills landed in.",
+  "SIGKILL of the process group models a crash; unsynced-page loss (power failure) is out of reach; each trial starts from a fresh copy of its start state."),
  "C19": ("exploration", "runtime monitoring: before/after snapshots (mode, size, sha256) of the source tree, the -debugdir target and a private TMPDIR around every command; file-set comparison of -debugdir output with go list",
   "22 (quick) to 29 (thorough) command/outcome combinations (build, test, run, reverse, map x success, list error, type error, dependency compile error, link error, failing test, program exit status, bad flags, GOGARBLE matching nothing) run in a tree containing unrelated files with a private TMPDIR; the tree must be byte-identical afterwards, no garble temp entries may remain, foreign -debugdir targets (files, subdirectories, regular file, symlink) must be refused and untouched, and an owned -debugdir must hold source and garbled files for every file go list reports on cold, warm and partially deleted caches.",
   "Only commands that exit are judged (kills: C18); go's own go-build* directories are not garble's."),
